@@ -730,8 +730,20 @@ class Run:
 
     # ---- save
     def save_and_check(self, how="stream"):
+        try:
+            return self._save_and_check(how)
+        except Exception as e:  # noqa
+            if getattr(self, "_saving", False) and "C02" in self.deciders:
+                # "at any point of any sequence of public-API operations ... saving produces a zip": a save() that raises
+                # produces none (or half of one, over whatever the path held)
+                self._saving = False
+                self.report("C02", "save-raises:%s" % type(e).__name__, "save #%d (%s) raised %s: %s" % (self.saves + 1, how, type(e).__name__, str(e)[:160]))
+            raise
+
+    def _save_and_check(self, how="stream"):
         prs = self.prs
         expect_types = {str(p.partname): p.content_type for p in prs.part.package.iter_parts()}
+        self._saving = True
         if how == "path":
             path = os.path.join(self.tmp, "save_%s.pptx" % "_".join(str(x) for x in self.seed_parts))
             prs.save(path)
@@ -751,6 +763,7 @@ class Run:
             buf = io.BytesIO()
             prs.save(buf)
             data = buf.getvalue()
+        self._saving = False
         self.saves += 1
         self.acc.count("saves")
         self.acc.hit("Presentation.save")
